@@ -653,4 +653,45 @@ Section Trace.
         cbn [app] in E. injection E as _ E. eapply (IH s2); eauto. }
     destruct Hc as (e & ->). discriminate.
   Qed.
+
+  (* ---- one at a time, as properties of single steps: a transmission starts only when none is in progress;
+          while one is in progress no step aborts it or forwards anything, and it ends only at its end
+          instant with its own packet; nothing but the end of a transmission forwards ---- *)
+  Theorem srv_start_when_free s s' o :
+    actS s FChildInit = Ok (s', o) ->
+    current_packet s = None /\
+    exists e, chl s = CInit e /\ chl s' = CTx e (Qred (now s + tx_time rate (epkt e))) /\ current_packet s' = Some (epkt e).
+  Proof.
+    intros A. unfold act in A. unfold current_packet. destruct (chl s) as [|e|e dl|e] eqn:Ec; try discriminate A.
+    apply Ok_inj in A as [-> ->]. split; [reflexivity|]. exists e. cbn [chl with_child]. auto.
+  Qed.
+
+  Theorem srv_never_aborts s a s' o e dl :
+    Reach s -> chl s = CTx e dl -> actS s a = Ok (s', o) ->
+    (a = FChildTimer /\ o = [OForward (epkt e)] /\ dl == now s /\ chl s' = CEnded e /\ current_packet s' = None) \/
+    (a <> FChildTimer /\ chl s' = CTx e dl /\ o = [] /\ now s' <= dl).
+  Proof.
+    intros R Ec A. destruct (Inv_reach S rate rate_pos st0 conf cls D s R) as ((_ & _ & _ & Dl) & _).
+    specialize (Dl e dl Ec).
+    destruct a; unfold act in A; rewrite ?Ec in A.
+    - destruct (st_put S (now s) (stm s) p) as [[st' F]|]; [|discriminate A]. apply Ok_inj in A as [-> ->].
+      right. cbn [chl now]. split; [discriminate|]. auto.
+    - destruct (started s); [discriminate A|]. destruct (sq_get pq_pop (store s)); [|discriminate A].
+      apply Ok_inj in A as [-> ->]. right. cbn [chl now]. split; [discriminate|]. auto.
+    - destruct (sq_cb pq_pop (store s)); [|discriminate A]. apply Ok_inj in A as [-> ->].
+      right. cbn [chl now with_store]. split; [discriminate|]. auto.
+    - discriminate A.
+    - discriminate A.
+    - destruct (Qeq_bool dl (now s)) eqn:E; [|discriminate A]. apply Ok_inj in A as [-> ->].
+      left. apply Qeq_bool_iff in E. unfold current_packet. cbn [chl]. auto 6.
+    - discriminate A.
+    - destruct (urgent s); [discriminate A|]. destruct (Qlt_le_dec (now s) t); [|discriminate A].
+      destruct (Qle_bool t dl) eqn:E; [|discriminate A]. apply Ok_inj in A as [-> ->].
+      right. cbn [chl now]. split; [discriminate|]. split; [reflexivity|]. split; [reflexivity|]. apply Qle_bool_iff. exact E.
+  Qed.
+
+  Theorem srv_only_end_forwards s a s' o : actS s a = Ok (s', o) -> o <> [] -> a = FChildTimer.
+  Proof.
+    intros A Ho. destruct a; try reflexivity; act_inv A; exfalso; apply Ho; reflexivity.
+  Qed.
 End Trace.
